@@ -41,6 +41,14 @@ var solverSpecs = []solverSpec{
 		return []string{"--lang=smt2", "--strings-exp", "--fp-exp", fmt.Sprintf("--tlimit=%d", t), "--produce-models", "--arrays-exp"}
 	}, prep: func(q string) string { return "(set-logic ALL)\n" + q }},
 	{name: "z3-4.8.12", bin: "z3", args: func(t int) []string { return []string{"-in", "-smt2", fmt.Sprintf("-t:%d", t)} }, prep: func(q string) string { return q }},
+	// E-matching only, with a more generous instantiation threshold: decides many quantified goals on which the
+	// default configuration wanders (an unsat answer is an unsat answer whatever the heuristics)
+	{name: "z3-5.1.0/ematch50", bin: "z3-new", args: func(t int) []string {
+		return []string{"-in", "-smt2", fmt.Sprintf("-t:%d", t), "smt.mbqi=false", "smt.qi.eager_threshold=50"}
+	}, prep: func(q string) string { return q }},
+	{name: "z3-5.1.0/ematch500", bin: "z3-new", args: func(t int) []string {
+		return []string{"-in", "-smt2", fmt.Sprintf("-t:%d", t), "smt.mbqi=false", "smt.qi.eager_threshold=500"}
+	}, prep: func(q string) string { return q }},
 }
 
 func findSolver(name string) *solverSpec {
@@ -97,6 +105,10 @@ func runOne(ctx context.Context, sp *solverSpec, query string, getValues []strin
 	case "sat":
 		res.Status = "sat"
 		res.Model = parseGetValues(rest, getValues)
+		if strings.Contains(sp.name, "/ematch") {
+			// (with MBQI off z3 answers unknown rather than sat on quantified problems; be safe anyway)
+			res.Status = "unknown"
+		}
 	case "unknown":
 		res.Status = "unknown"
 	case "timeout":
